@@ -152,6 +152,14 @@ def gen_process_item(w, m):
             else:
                 ed["comp"] = [wg.rnd(w, 0.02, 0.98, 4), w.choice(["weight", "molar"])]
         item["cond_edit"] = ed
+    if w.random() < 0.10:
+        # per-step fields held in another sequence type (a ProcessModel is a plain data class; load() itself hands out
+        # pandas Series): tuples, numpy arrays, Series with the default index, indexed by time, or a slice's labels
+        kinds = {}
+        for fld in w.sample(["feed_temperature", "time", "permeate_temperature", "permeate_pressure", "feed_mass",
+                             "feed_evaporation_heat", "permeate_condensation_heat"], w.randint(1, 4)):
+            kinds[fld] = w.choice(["tuple", "array", "series", "series_time", "series_shift"])
+        item["seq_types"] = kinds
     return item
 
 
